@@ -193,7 +193,8 @@ def peak_case(draw):
         s = draw(GS.spec1d_case(layouts=["none", "t", "tl"], allow_zero_f=False, kinds=["random", "smooth", "sparse", "nan"],
                                 moments="any", history=True))
     return {"spec": s, "power": draw(st.sampled_from([4, 4, 5, 3])), "params": draw(params()),
-            "convention": draw(st.sampled_from(["going_to_counter_clockwise_east", "coming_from_clockwise_north"]))}
+            "convention": draw(st.sampled_from(["going_to_counter_clockwise_east", "coming_from_clockwise_north"])),
+            "rescale_in_place": draw(st.sampled_from([None, None, "setitem", "dataset_assignment"]))}
 
 
 def run_peak(c):
@@ -236,6 +237,21 @@ def run_peak(c):
             x2 = np.asarray(ds[k].values, dtype=float)
             x1 = np.asarray(ds1[k].values, dtype=float)
             require(np.allclose(x1, x2, rtol=1e-12, atol=1e-12), "two_d_input_equals_its_1d_reduction", f"{k}: {x1} vs {x2}")
+    # the same object estimated again after its contents were scaled in place through the public API: friction velocity
+    # scales linearly, the direction stays (nothing may be remembered from the first estimate)
+    mode = c.get("rescale_in_place")
+    if mode:
+        sfac = 3.0
+        if mode == "setitem":
+            spec["variance_density"] = spec.variance_density * sfac
+        else:
+            spec.dataset["variance_density"] = spec.dataset["variance_density"] * sfac
+        ds3 = call(spec, cc, "peak", power=c["power"])
+        refs3 = [closed_form(x * sfac, p["I"], p["beta"], p["kappa"], p["alpha"], p["cvisc"]) for x in e_eq]
+        check_dataset(ds3, tuple(a["shape"]), [r[0] for r in refs3], [r[1] for r in refs3], [r[2] for r in refs3],
+                      [float(x) for x in dir_ref],
+                      f"peak method after scaling the same object in place by 3 ({mode}) kind={sc['kind']}")
+        classes.append("estimated_again_after_in_place_scaling")
     return {"nontrivial": bool((np.abs(going % 90.0) > 1e-6).any()), "classes": classes}
 
 
